@@ -40,9 +40,22 @@ func saveVisible(v *big.Int, n *big.Int) *big.Int {
 	return d
 }
 
-func litSave(s *GStmt) (acct, asset string, n *big.Int, ok bool) {
+// litSave: the account, asset and amount of a save written with literals, or with a monetary variable
+// whose text is in vars ("USD 12")
+func litSave(s *GStmt, vars map[string]string) (acct, asset string, n *big.Int, ok bool) {
 	if s.Kind != StSave || s.Acct.Kind != XAccount {
 		return
+	}
+	if !s.Sent.All && s.Sent.E.Kind == XVar {
+		fs := strings.Fields(vars[s.Sent.E.S])
+		if len(fs) != 2 {
+			return
+		}
+		v, good := new(big.Int).SetString(fs[1], 10)
+		if !good || v.Sign() < 0 {
+			return
+		}
+		return s.Acct.S, fs[0], v, true
 	}
 	if s.Sent.All {
 		if s.Sent.E.Kind != XAsset {
@@ -123,11 +136,20 @@ func init() {
 			if c.replay == nil && directedKind == "meta" && i%10 == 9 {
 				directedKind = "metaRead"
 			}
+			if c.replay == nil && directedKind == "unbounded" && i%20 == 7 {
+				directedKind = []string{"varReuse0", "varReuse1", "varReuse2"}[(i/20)%3]
+			}
 			switch directedKind {
 			case "capVarReuse":
 				prog = g.capVarReuseProgram(false)
 			case "metaRead":
 				prog = g.metaReadThenWriteProgram()
+			case "varReuse0":
+				prog = g.varReuseProgram(0, true)
+			case "varReuse1":
+				prog = g.varReuseProgram(1, true)
+			case "varReuse2":
+				prog = g.varReuseProgram(2, true)
 			case "meta":
 				prog = g.metaOverrideProgram()
 			case "unbounded":
@@ -198,7 +220,7 @@ func init() {
 							}
 							prev = len(oj.Res.Postings)
 						case StSave:
-							a, x, n, ok := litSave(st)
+							a, x, n, ok := litSave(st, sc.Vars)
 							if !ok {
 								usable = false
 								break
@@ -404,8 +426,31 @@ func (c *Ctx) c11Case(sc Scenario) {
 	store := numscript.StaticStore{Balances: bal, Meta: meta}
 	logged := newStore(skStatic, bal, meta, -1) // same maps, logging wrapper around the static store
 	p := numscript.Parse(sc.Text)
+	// the parsed program is an input too: a run must leave the tree as it found it (literals included)
+	treeSame := func() (same bool) {
+		defer func() {
+			if recover() != nil {
+				same = true // a crash is judged elsewhere
+			}
+		}()
+		pr := parser.Parse(sc.Text)
+		if len(pr.Errors) != 0 {
+			return true
+		}
+		before := dumpProgram(pr.Value)
+		var flags map[string]struct{}
+		if sc.Flag {
+			flags = map[string]struct{}{interpreter.ExperimentalOverdraftFunctionFeatureFlag: {}}
+		}
+		v2 := map[string]string{}
+		for k, v := range sc.Vars {
+			v2[k] = v
+		}
+		interpreter.RunProgram(context.Background(), pr.Value, v2, numscript.StaticStore{Balances: deepCopyBalances(sc.Bal), Meta: deepCopyMeta(sc.Meta)}, flags)
+		return dumpProgram(pr.Value) == before
+	}()
 	o1 := runParsed(p, vars, logged, sc.Flag)
-	unchanged := balancesEqual(bal, sc.Bal) && metaEqual(meta, sc.Meta) && len(vars) == len(sc.Vars)
+	unchanged := balancesEqual(bal, sc.Bal) && metaEqual(meta, sc.Meta) && len(vars) == len(sc.Vars) && treeSame
 	for k, v := range sc.Vars {
 		if vars[k] != v {
 			unchanged = false
